@@ -154,3 +154,15 @@ Proof.
       rewrite S_INR. simpl.
       assert (x ^ m <> 0) by (apply pow_nonzero; exact Hx). field. split; assumption.
 Qed.
+
+(* grouped statement used by Props/Properties_C01_scalar.v *)
+Theorem pown_all x k : int32 k ->
+  fw_pown x k = (if (0 <=? k)%Z then x ^ Z.abs_nat k else 1 / x ^ Z.abs_nat k) /\
+  fw_pown x k = powerRZ x k /\
+  (x <> 0 -> is_derive (fun x => fw_pown x k) x (bw_pown x (fw_pown x k) 1 k)) /\
+  (forall y gy, bw_pown x y gy k = gy * bw_pown x y 1 k).
+Proof.
+  intros Hk. split; [apply fw_pown_spec; exact Hk|]. split; [apply fw_pown_powerRZ; exact Hk|].
+  split; [intro Hx; apply d_pown; assumption|].
+  intros y gy. unfold bw_pown, Rdiv. ring.
+Qed.
